@@ -177,3 +177,307 @@ def valid_pair(gen, cls=None, minor=None, tries=5):
             return cls2, a, b, rec, waste
         waste += 1
     return None, None, None, None, waste
+
+
+# ---------------------------------------------------------------------------
+# merge triples
+# ---------------------------------------------------------------------------
+TRIPLE_CLASSES = ["random", "random", "random", "del_vs_edit", "del_vs_edit", "insert_near", "both_insert_similar",
+                  "both_insert_dissimilar", "same_attachment", "same_meta_key", "same_output", "same_line",
+                  "minor_diff", "retype", "empty_source", "both_append_outputs", "exec_count", "fixture",
+                  "nbmeta_conflict", "out_meta_conflict", "multi_line_meta"]
+
+
+def merge_triple(gen, cls=None, minor=None, plain_eol=False):
+    """(class, base, local, remote, info).  plain_eol restricts sources to \\n / \\r\\n
+    line endings and no exotic separators (C07: external tools are line tools)."""
+    r = gen.rng
+    cls = cls or r.choice(TRIPLE_CLASSES)
+    info = {}
+    if cls == "fixture":
+        fx = fixtures()
+        if fx:
+            name, base = r.choice(fx)
+            base = copy.deepcopy(base)
+            loc, r1 = mutate(base, gen, steps=r.choice([1, 2, 3]))
+            rem, r2 = mutate(base, gen, steps=r.choice([1, 2, 3]))
+            return cls, base, loc, rem, {"fixture": name, "local": r1, "remote": r2}
+        cls = "random"
+    base = gen.notebook(minor, ncells=r.choice([1, 2, 3, 4, 5, 6, 8]))
+    m = base["nbformat_minor"]
+    if not base["cells"]:
+        base["cells"].append(gen.cell(m))
+    loc = copy.deepcopy(base)
+    rem = copy.deepcopy(base)
+    k = r.randrange(len(base["cells"]))
+    if cls == "random":
+        loc, r1 = mutate(base, gen, steps=r.choice([1, 2, 3, 5]), allow_minor=r.random() < 0.15)
+        rem, r2 = mutate(base, gen, steps=r.choice([1, 2, 3, 5]), allow_minor=r.random() < 0.15)
+        info = {"local": r1, "remote": r2}
+    elif cls == "del_vs_edit":
+        what = r.choice(["edit_source", "edit_output", "cell_meta", "exec_count", "rerun", "attachments"])
+        deleter, editor = (loc, rem) if r.random() < 0.5 else (rem, loc)
+        # editor edits cell k, deleter removes it
+        tmp = {"nbformat": 4, "nbformat_minor": m, "metadata": {}, "cells": [editor["cells"][k]]}
+        rec = mutate_once(tmp, gen, what)
+        del deleter["cells"][k]
+        if r.random() < 0.4:
+            deleter2, rr = mutate(deleter, gen, steps=1)
+            deleter["cells"] = deleter2["cells"]
+        info = {"k": k, "edit": rec or what, "deleter": "local" if deleter is loc else "remote"}
+    elif cls == "insert_near":
+        for side in (loc, rem):
+            cc = r.random()
+            if cc < 0.4 and len(side["cells"]) > 0:
+                tmp = {"nbformat": 4, "nbformat_minor": m, "metadata": {}, "cells": [side["cells"][k]]}
+                mutate_once(tmp, gen, "edit_source")
+            elif cc < 0.7 and len(side["cells"]) > 1:
+                del side["cells"][k]
+            pos = min(len(side["cells"]), max(0, k + r.choice([-1, 0, 0, 1, 1])))
+            side["cells"].insert(pos, gen.cell(m))
+    elif cls in ("both_insert_similar", "both_insert_dissimilar"):
+        pos = r.randrange(len(base["cells"]) + 1)
+        n = r.choice([1, 1, 2])
+        for j in range(n):
+            c1 = gen.cell(m, r.choice(["code", "markdown"]))
+            if c1["cell_type"] == "code" and r.random() < 0.5:
+                c1["outputs"] = []
+            if cls == "both_insert_similar":
+                c1["source"] = "\n".join(gen.line(CODE_LINES) for _ in range(4)) + "\n"
+                c2 = copy.deepcopy(c1)
+                if "id" in c2 and r.random() < 0.7:
+                    c2["id"] = gen.new_id()
+                cc = r.random()
+                if cc < 0.6:
+                    c2["source"] = edit_text(c2["source"], gen, CODE_LINES)
+                if cc > 0.4 and r.random() < 0.5:
+                    c2["metadata"] = gen.metadata(c2["cell_type"])
+                if c2["cell_type"] == "code" and r.random() < 0.4:
+                    c2["execution_count"] = r.choice([None, 7])
+                    if r.random() < 0.5:
+                        c2["outputs"] = [gen.output()]
+            else:
+                c2 = gen.cell(m)
+            loc["cells"].insert(pos + j, c1)
+            rem["cells"].insert(pos + j, c2)
+        if r.random() < 0.3 and pos < len(base["cells"]):
+            # and one side also removes/edits the following cell
+            side = r.choice([loc, rem])
+            del side["cells"][pos + n]
+        info = {"pos": pos, "n": n}
+    elif cls == "same_attachment":
+        c = gen.cell(m, "markdown")
+        c["attachments"] = {"a.png": gen.mimebundle(True)} if r.random() < 0.6 else {}
+        if not c["attachments"] and r.random() < 0.5:
+            del c["attachments"]
+        for nb in (base, loc, rem):
+            nb["cells"].insert(0, copy.deepcopy(c))
+        for side in (loc, rem):
+            att = side["cells"][0].setdefault("attachments", {})
+            cc = r.random()
+            if "a.png" in att and cc < 0.3:
+                del att["a.png"]
+            elif cc < 0.75:
+                att["a.png"] = gen.mimebundle(True)
+            else:
+                att[r.choice(["a.png", "b.png"])] = gen.mimebundle(True)
+            if r.random() < 0.3:
+                att["LOCAL_a.png"] = gen.mimebundle(True)
+    elif cls in ("same_meta_key", "nbmeta_conflict", "multi_line_meta"):
+        target = "nb" if cls == "nbmeta_conflict" or r.random() < 0.3 else "cell"
+        key = r.choice(["x", "tags", "nested", "collapsed"])
+
+        def md(nb):
+            return nb["metadata"] if target == "nb" else nb["cells"][k]["metadata"]
+        if cls == "multi_line_meta":
+            key = "doc"
+            md(base)[key] = "line one\nline two\nline three\nline four\n"
+            md(loc)[key] = md(base)[key].replace("two", r.choice(["TWO", "2"]))
+            md(rem)[key] = md(base)[key].replace(r.choice(["two", "three"]), "CHANGED")
+            if r.random() < 0.5:
+                md(loc)[key] += "local tail"
+                md(rem)[key] += "remote tail\n"
+        elif key == "tags":
+            md(base)[key] = gen.tags()
+            md(loc)[key] = gen.tags()
+            md(rem)[key] = gen.tags()
+        elif key == "collapsed" and target == "cell" and base["cells"][k]["cell_type"] == "code":
+            md(base)[key] = True
+            md(loc)[key] = False
+            if r.random() < 0.5:
+                md(rem).pop(key, None)
+            else:
+                md(rem)[key] = False
+                md(rem)["scrolled"] = "auto"
+        else:
+            key = "x" if key == "collapsed" else key
+            if r.random() < 0.7:
+                md(base)[key] = gen.value()
+            md(loc)[key] = gen.value()
+            if r.random() < 0.8:
+                md(rem)[key] = gen.value()
+            else:
+                md(rem).pop(key, None)
+        if "nbdime-conflicts" not in md(base) and r.random() < 0.15:
+            for nb in (base, loc, rem):
+                md(nb)["nbdime-conflicts"] = {"local_diff": [], "remote_diff": []}
+        info = {"target": target, "key": key}
+    elif cls in ("same_output", "both_append_outputs", "out_meta_conflict"):
+        c = gen.cell(m, "code")
+        c["outputs"] = [gen.output() for _ in range(r.choice([1, 1, 2, 3]))]
+        if cls == "out_meta_conflict":
+            c["outputs"][0] = gen.output("display_data")
+        for nb in (base, loc, rem):
+            nb["cells"].insert(0, copy.deepcopy(c))
+        for side in (loc, rem):
+            outs = side["cells"][0]["outputs"]
+            if cls == "both_append_outputs":
+                for _ in range(r.choice([1, 1, 2])):
+                    outs.append(gen.output())
+                if r.random() < 0.3:
+                    tmp = {"nbformat": 4, "nbformat_minor": m, "metadata": {}, "cells": [side["cells"][0]]}
+                    mutate_once(tmp, gen, "edit_output")
+            elif cls == "out_meta_conflict":
+                outs[0]["metadata"][r.choice(["a", "b"])] = gen.scalar()
+            else:
+                tmp = {"nbformat": 4, "nbformat_minor": m, "metadata": {}, "cells": [side["cells"][0]]}
+                for _ in range(r.choice([1, 2])):
+                    mutate_once(tmp, gen, r.choice(["edit_output", "mime_edit", "out_meta", "rerun", "clear_outputs"]))
+    elif cls == "same_line":
+        nl = r.choice([1, 3, 5])
+        lines = ["line %d of the cell = %d" % (j, r.randrange(100)) for j in range(nl)]
+        final = r.choice(["\n", ""])
+        src = "\n".join(lines) + final
+        c = gen.cell(m, r.choice(["code", "markdown"]))
+        c["source"] = src
+        pos = r.randrange(len(base["cells"]) + 1)
+        for nb in (base, loc, rem):
+            nb["cells"].insert(pos, copy.deepcopy(c))
+        j = r.randrange(nl)
+        ll, rl = list(lines), list(lines)
+        ll[j] = lines[j] + " # local edit %d" % r.randrange(100)
+        rl[j] = "remote rewrite %d of " % r.randrange(100) + lines[j]
+        loc["cells"][pos]["source"] = "\n".join(ll) + final
+        rem["cells"][pos]["source"] = "\n".join(rl) + final
+        info = {"pos": pos, "line": j, "nlines": nl, "local_line": ll[j], "remote_line": rl[j],
+                "id": c.get("id"), "final_newline": bool(final)}
+    elif cls == "minor_diff":
+        from .gen_edit import change_minor
+        change_minor(loc, gen)
+        change_minor(rem, gen)
+        if r.random() < 0.6:
+            loc, _ = mutate(loc, gen, steps=1)
+            rem, _ = mutate(rem, gen, steps=1)
+        info = {"minors": [m, loc["nbformat_minor"], rem["nbformat_minor"]]}
+    elif cls == "retype":
+        tmpl = {"nbformat": 4, "nbformat_minor": m, "metadata": {}, "cells": [loc["cells"][k]]}
+        mutate_once(tmpl, gen, "retype")
+        cc = r.random()
+        tmpr = {"nbformat": 4, "nbformat_minor": m, "metadata": {}, "cells": [rem["cells"][k]]}
+        if cc < 0.4:
+            mutate_once(tmpr, gen, "edit_source")
+        elif cc < 0.7:
+            mutate_once(tmpr, gen, "retype")
+        else:
+            mutate_once(tmpr, gen, "cell_meta")
+    elif cls == "empty_source":
+        loc["cells"][k]["source"] = ""
+        cc = r.random()
+        if cc < 0.4:
+            rem["cells"][k]["source"] = ""
+        elif cc < 0.8:
+            rem["cells"][k]["source"] = edit_text(rem["cells"][k]["source"], gen, CODE_LINES)
+        if r.random() < 0.3:
+            base["cells"][k]["source"] = ""
+    elif cls == "exec_count":
+        for nb, ec in ((base, 1), (loc, 2), (rem, 3)):
+            for c in nb["cells"]:
+                if c["cell_type"] == "code":
+                    c["execution_count"] = ec
+                    for o in c["outputs"]:
+                        if o["output_type"] == "execute_result":
+                            o["execution_count"] = ec
+        if r.random() < 0.5:
+            loc, _ = mutate(loc, gen, steps=1)
+    if plain_eol:
+        for nb in (base, loc, rem):
+            for c in nb["cells"]:
+                c["source"] = _plain(c["source"])
+    return cls, base, loc, rem, info
+
+
+def _plain(s):
+    for sep in EXOTIC_SEPS:
+        s = s.replace(sep, " ")
+    s = s.replace("\r\n", "\n").replace("\r", "\n")
+    return s
+
+
+def valid_triple(gen, cls=None, minor=None, plain_eol=False, tries=5):
+    waste = 0
+    for _ in range(tries):
+        cls2, b, l, rm, info = merge_triple(gen, cls, minor, plain_eol)
+        if not validate_nb(b) and not validate_nb(l) and not validate_nb(rm):
+            return cls2, b, l, rm, info, waste
+        waste += 1
+    return None, None, None, None, None, waste
+
+
+# --- merge configurations -----------------------------------------------------
+MERGE_STRATS = ["inline", "use-base", "use-local", "use-remote"]
+INPUT_STRATS = [None, "inline", "use-base", "use-local", "use-remote"]
+OUTPUT_STRATS = [None, "inline", "use-base", "use-local", "use-remote", "remove", "clear-all"]
+
+
+def all_merge_configs():
+    """The 4 x 5 x 7 x 2 CLI combinations + mergetool x 2 = 282 configurations, as flag lists."""
+    out = []
+    for ms in MERGE_STRATS:
+        for ins in INPUT_STRATS:
+            for outs in OUTPUT_STRATS:
+                for tr in (True, False):
+                    out.append({"merge": ms, "input": ins, "output": outs, "ignore_transients": tr})
+    for tr in (True, False):
+        out.append({"merge": "mergetool", "input": None, "output": None, "ignore_transients": tr})
+    return out
+
+
+def config_flags(cfg):
+    flags = []
+    if cfg["merge"] != "mergetool":
+        flags += ["--merge-strategy", cfg["merge"]]
+    if cfg["input"]:
+        flags += ["--input-strategy", cfg["input"]]
+    if cfg["output"]:
+        flags += ["--output-strategy", cfg["output"]]
+    if not cfg["ignore_transients"]:
+        flags += ["--no-ignore-transients"]
+    return flags
+
+
+_ARGS_CACHE = {}
+
+
+def merge_args(cfg):
+    """Namespace produced by the REAL nbmerge parser from the flag list; 'mergetool' is
+    assigned the way ApiMergeHandler does it."""
+    key = (cfg["merge"], cfg["input"], cfg["output"], cfg["ignore_transients"])
+    if key not in _ARGS_CACHE:
+        import nbdime.nbmergeapp as app
+        ns = app._build_arg_parser().parse_args(config_flags(cfg) + ["", "", ""])
+        if cfg["merge"] == "mergetool":
+            ns.merge_strategy = "mergetool"
+        _ARGS_CACHE[key] = ns
+        from .nbd import quiet_logging
+        quiet_logging()
+    return copy.copy(_ARGS_CACHE[key])
+
+
+def covering_configs(rng, k):
+    """k configurations such that value pairs get covered quickly: default, mergetool, then random."""
+    cfgs = [{"merge": "inline", "input": None, "output": None, "ignore_transients": True},
+            {"merge": "mergetool", "input": None, "output": None, "ignore_transients": True}]
+    allc = all_merge_configs()
+    while len(cfgs) < k:
+        cfgs.append(rng.choice(allc))
+    return cfgs[:k]
